@@ -135,6 +135,9 @@ func genGTy(r *Rng, depth int, allowStruct bool) *GTy {
 		return &GTy{Kind: "P", Elem: e, rt: reflect.PointerTo(e.rt)}
 	case 10:
 		e := genGTy(r, depth-1, allowStruct)
+		if e.rt.Kind() == reflect.Uint8 { // []uint8 is []byte: encoded per BytesAs, not as a list
+			e = &GTy{Kind: "i", rt: reflect.TypeOf(int(0))}
+		}
 		return &GTy{Kind: "L", Elem: e, rt: reflect.SliceOf(e.rt)}
 	case 11:
 		e := genGTy(r, depth-1, allowStruct)
@@ -224,10 +227,16 @@ func genStructTy(r *Rng, depth int, allowEmbed bool) *GTy {
 
 // a value of type t: the reflect.Value and its description for the model
 func genGVal(r *Rng, t *GTy, depth int) (reflect.Value, string) {
+	return genGValIn(r, t, depth, false)
+}
+
+// inMap: the value is a member of a map; such members are never nil or empty here (how the omit
+// options treat map members is a recorded finding, exercised by directed witnesses only)
+func genGValIn(r *Rng, t *GTy, depth int, inMap bool) (reflect.Value, string) {
 	v := reflect.New(t.rt).Elem()
 	switch t.Kind {
 	case "b":
-		b := r.Bool()
+		b := r.Bool() || inMap
 		v.SetBool(b)
 		if b {
 			return v, "t"
@@ -237,6 +246,9 @@ func genGVal(r *Rng, t *GTy, depth int) (reflect.Value, string) {
 		n := int64(r.Intn(7) - 1)
 		if r.Chance(45) {
 			n = 0
+		}
+		if inMap && n == 0 {
+			n = 2
 		}
 		if n < 0 && t.rt.Kind() >= reflect.Uint && t.rt.Kind() <= reflect.Uint64 {
 			n = 3
@@ -249,17 +261,23 @@ func genGVal(r *Rng, t *GTy, depth int) (reflect.Value, string) {
 		return v, "i" + strconv.FormatInt(n, 10)
 	case "f":
 		f := []float64{0, 1.5, -2.25, 3}[r.Intn(4)]
+		if inMap && f == 0 {
+			f = 1.5
+		}
 		v.SetFloat(f)
 		return v, fmtFloat(f)
 	case "s":
 		s := r.Pick([]string{"", "", "a", "xy", "<&>"})
+		if inMap && s == "" {
+			s = "m"
+		}
 		v.SetString(s)
 		return v, "s" + hx([]byte(s))
 	case "P":
-		if r.Chance(35) {
+		if r.Chance(35) && !inMap {
 			return v, "n"
 		}
-		e, d := genGVal(r, t.Elem, depth)
+		e, d := genGValIn(r, t.Elem, depth, inMap)
 		p := reflect.New(t.Elem.rt)
 		p.Elem().Set(e)
 		v.Set(p)
@@ -267,16 +285,20 @@ func genGVal(r *Rng, t *GTy, depth int) (reflect.Value, string) {
 	case "L":
 		switch r.Intn(4) {
 		case 0:
-			return v, "n"
+			if !inMap {
+				return v, "n"
+			}
 		case 1:
-			v.Set(reflect.MakeSlice(t.rt, 0, 0))
-			return v, "(L)"
+			if !inMap {
+				v.Set(reflect.MakeSlice(t.rt, 0, 0))
+				return v, "(L)"
+			}
 		}
 		n := 1 + r.Intn(2)
 		s := reflect.MakeSlice(t.rt, n, n)
 		ds := make([]string, n)
 		for i := 0; i < n; i++ {
-			e, d := genGVal(r, t.Elem, depth)
+			e, d := genGValIn(r, t.Elem, depth, false)
 			s.Index(i).Set(e)
 			ds[i] = d
 		}
@@ -285,15 +307,19 @@ func genGVal(r *Rng, t *GTy, depth int) (reflect.Value, string) {
 	case "M":
 		switch r.Intn(4) {
 		case 0:
-			return v, "n"
+			if !inMap {
+				return v, "n"
+			}
 		case 1:
-			v.Set(reflect.MakeMap(t.rt))
-			return v, "(M)"
+			if !inMap {
+				v.Set(reflect.MakeMap(t.rt))
+				return v, "(M)"
+			}
 		}
 		m := reflect.MakeMap(t.rt)
 		var ds []string
 		for _, k := range []string{"k", "m"}[:1+r.Intn(2)] {
-			e, d := genGVal(r, t.Elem, depth)
+			e, d := genGValIn(r, t.Elem, depth, true)
 			m.SetMapIndex(reflect.ValueOf(k), e)
 			ds = append(ds, "(k"+hx([]byte(k))+" "+d+")")
 		}
@@ -301,7 +327,11 @@ func genGVal(r *Rng, t *GTy, depth int) (reflect.Value, string) {
 		return v, "(M " + strings.Join(ds, " ") + ")"
 	case "A":
 		var dt *GTy
-		switch r.Intn(8) {
+		k := r.Intn(8)
+		if inMap && k < 2 {
+			k = 3
+		}
+		switch k {
 		case 0, 1:
 			return v, "n"
 		case 2:
@@ -317,7 +347,7 @@ func genGVal(r *Rng, t *GTy, depth int) (reflect.Value, string) {
 		default:
 			dt = &GTy{Kind: "L", Elem: &GTy{Kind: "i", rt: reflect.TypeOf(int(0))}, rt: reflect.TypeOf([]int(nil))}
 		}
-		e, d := genGVal(r, dt, depth)
+		e, d := genGValIn(r, dt, depth, inMap)
 		if d == "n" { // a typed nil in an interface is not nil for Go: keep to real values
 			return v, "n"
 		}
@@ -379,9 +409,9 @@ func parsedShow(text string, useSen bool) string {
 func suiteStruct(tier string, seed uint64, model string) *Report {
 	rep := &Report{Property: "C15", Tier: tier, Seed: seed}
 	r := NewRng(seed)
-	nTypes := 400
+	nTypes := 2000
 	if tier == "thorough" {
-		nTypes = 5000
+		nTypes = 25000
 	}
 	var cases []*encCase
 	for i := 0; i < nTypes; i++ {
@@ -397,14 +427,14 @@ func suiteStruct(tier string, seed uint64, model string) *Report {
 				for b := 0; b < 5; b++ {
 					c.flag[b] = mask&(1<<b) != 0
 				}
-				if r.Chance(15) {
+				if r.Chance(15) && !c.flag[4] { // the generated types have no name: an empty create value would itself be "empty"
 					c.ck = "^"
 				}
 				cases = append(cases, c)
 			}
 		}
 	}
-	reqs := make([]string, 0, 4*len(cases))
+	reqs := make([]string, 0, 6*len(cases))
 	for _, c := range cases {
 		fl := ""
 		for b := 0; b < 5; b++ {
@@ -414,7 +444,8 @@ func suiteStruct(tier string, seed uint64, model string) *Report {
 		if c.ck != "" {
 			ck = hx([]byte(c.ck))
 		}
-		for _, v := range []string{"00", "10", "01", "11"} { // decompose variant, tag-exact variant
+		// writer spec, decompose spec, then the recorded-finding variants: tag-exact (both), deref-empty (decompose), both
+		for _, v := range []string{"000", "100", "010", "110", "101", "111"} {
 			reqs = append(reqs, "enc\t"+fl+v+"\t"+ck+"\t"+c.ty.Sexp()+"\t"+c.desc)
 		}
 	}
@@ -425,8 +456,9 @@ func suiteStruct(tier string, seed uint64, model string) *Report {
 	}
 	distinct := map[string]bool{}
 	for i, c := range cases {
-		specW, specD := normNums(ans[4*i]), normNums(ans[4*i+1])
-		varW, varD := normNums(ans[4*i+2]), normNums(ans[4*i+3])
+		specW, specD := normNums(ans[6*i]), normNums(ans[6*i+1])
+		varW, varD := normNums(ans[6*i+2]), normNums(ans[6*i+3])
+		derefD, derefTagD := normNums(ans[6*i+4]), normNums(ans[6*i+5])
 		o := c.opts()
 		desc := fmt.Sprintf("opts{tags=%v exact=%v nest=%v omitnil=%v omitempty=%v ck=%q addr=%v} type=%s value=%s", c.flag[0], c.flag[1], c.flag[2], c.flag[3], c.flag[4], c.ck, c.addr, c.ty.Sexp(), c.desc)
 		rep.Evaluations++
@@ -436,8 +468,13 @@ func suiteStruct(tier string, seed uint64, model string) *Report {
 		check := func(where, got, want string) {
 			if got != want {
 				cl := ""
-				if (want == specW && got == varW) || (want == specD && got == varD) {
+				switch {
+				case (want == specW && got == varW) || (want == specD && got == varD):
 					cl = "usetags-untagged-exact"
+				case want == specD && got == derefD:
+					cl = "decompose-empty-through-pointer"
+				case want == specD && got == derefTagD:
+					cl = "decompose-empty-through-pointer+usetags-untagged-exact"
 				}
 				rep.Add(Disagreement{Case: desc, Where: where, Kind: "impl-vs-spec:encoding", Impl: got, Spec: want, Class: cl})
 			}
@@ -463,7 +500,8 @@ func suiteStruct(tier string, seed uint64, model string) *Report {
 		check("sen.String", safe(func() string { oo := o; return parsedShow(sen.String(c.arg(), &oo), true) }), specW)
 		check("sen.String/indent", safe(func() string { oo := o; oo.Indent = 2; return parsedShow(sen.String(c.arg(), &oo), true) }), specW)
 		check("pretty.JSON", safe(func() string {
-			return parsedShow(pretty.JSON(c.arg(), &pretty.Writer{Options: o, Width: 60, MaxDepth: 2}), false)
+			oo := o
+			return parsedShow(pretty.JSON(c.arg(), &oo, 60.2), false)
 		}), specD)
 		check("alt.Decompose", safe(func() string { oo := o; return normNums(Show(alt.Decompose(c.arg(), &oo))) }), specD)
 		// Go-compatible options: oj.Marshal without options against encoding/json
@@ -487,6 +525,9 @@ func suiteStruct(tier string, seed uint64, model string) *Report {
 			rep.Samples = append(rep.Samples, desc)
 		}
 	}
+	// directed witnesses of the recorded finding: how the omit options treat the members of maps held
+	// in struct fields. Attributed to the finding only if the same type with non-empty members agrees.
+	witnessMapOmission(rep, model)
 	rep.Distinct = len(distinct)
 	rep.Rule = "struct types generated at run time with reflect.StructOf: 1-5 fields of kinds bool, ten integer kinds, float64, string, any, pointers, slices, maps, nested generated and named structs; tags none / name / name,omitempty / ,omitempty / - / name,string; unexported fields; an embedded named struct or pointer to it (nil too); 3 values per type (zero values, nil and empty containers, interface values holding scalars, structs, pointers to structs, slices); every one of the 32 combinations of UseTags, KeyExact, NestEmbed, OmitNil, OmitEmpty with and without CreateKey; value passed by pointer and by value; oj.JSON (tight and indented), oj.Marshal, oj.Write, sen.String (tight and indented), pretty.JSON and alt.Decompose parsed back and compared with the extracted specification; oj.Marshal with the Go options against encoding/json (null vs empty container not distinguished); non-trivial = distinct struct types"
 	return rep
@@ -497,4 +538,55 @@ func nilAsEmpty(s string) string {
 	s = strings.ReplaceAll(s, "[]", "n")
 	s = strings.ReplaceAll(s, "{}", "n")
 	return s
+}
+
+type WitMaps struct {
+	MS map[string]string
+	MI map[string]int
+	MA map[string]any
+}
+
+func witnessMapOmission(rep *Report, model string) {
+	ts := &GTy{Kind: "S", Name: "WitMaps", rt: reflect.TypeOf(WitMaps{}), Fields: []GField{
+		{Name: "MS", Exported: true, T: &GTy{Kind: "M", Elem: &GTy{Kind: "s"}}},
+		{Name: "MI", Exported: true, T: &GTy{Kind: "M", Elem: &GTy{Kind: "i"}}},
+		{Name: "MA", Exported: true, T: &GTy{Kind: "M", Elem: &GTy{Kind: "A"}}}}}
+	empties := &WitMaps{MS: map[string]string{"e": "", "x": "y"}, MI: map[string]int{"z": 0, "o": 1}, MA: map[string]any{"n": nil, "v": int64(1)}}
+	emptiesD := "(S (M (k65 s) (k78 s79)) (M (k6f i1) (k7a i0)) (M (k6e n) (k76 (A i i1))))"
+	full := &WitMaps{MS: map[string]string{"e": "q", "x": "y"}, MI: map[string]int{"z": 2, "o": 1}, MA: map[string]any{"n": int64(3), "v": int64(1)}}
+	fullD := "(S (M (k65 s71) (k78 s79)) (M (k6f i1) (k7a i2)) (M (k6e (A i i3)) (k76 (A i i1))))"
+	for _, fl := range []string{"00010", "00001", "00011"} {
+		o := ojg.Options{Sort: true, OmitNil: fl[3] == '1', OmitEmpty: fl[4] == '1'}
+		reqs := []string{"enc\t" + fl + "000\t-\t" + ts.Sexp() + "\t" + emptiesD, "enc\t" + fl + "100\t-\t" + ts.Sexp() + "\t" + emptiesD,
+			"enc\t" + fl + "000\t-\t" + ts.Sexp() + "\t" + fullD, "enc\t" + fl + "100\t-\t" + ts.Sexp() + "\t" + fullD}
+		ans, err := RunModel(model, reqs)
+		if err != nil {
+			rep.Add(Disagreement{Kind: "harness-error", Detail: err.Error()})
+			return
+		}
+		encs := []struct {
+			name string
+			dec  int
+			f    func(v any) string
+		}{
+			{"oj.JSON", 0, func(v any) string { oo := o; return parsedShow(oj.JSON(v, &oo), false) }},
+			{"sen.String", 0, func(v any) string { oo := o; return parsedShow(sen.String(v, &oo), true) }},
+			{"alt.Decompose", 1, func(v any) string { oo := o; return normNums(Show(alt.Decompose(v, &oo))) }},
+		}
+		for _, e := range encs {
+			rep.Evaluations++
+			rep.Count("witness:map-member-omission")
+			got := safe(func() string { return e.f(empties) })
+			want := normNums(ans[e.dec])
+			if got == want {
+				continue
+			}
+			cl := ""
+			if safe(func() string { return e.f(full) }) == normNums(ans[2+e.dec]) {
+				cl = "omit-options-inside-map-members"
+			}
+			rep.Add(Disagreement{Case: fmt.Sprintf("witness:map-member-omission omitnil=%v omitempty=%v value=%s", o.OmitNil, o.OmitEmpty, emptiesD), Where: e.name,
+				Kind: "impl-vs-spec:encoding", Impl: got, Spec: want, Class: cl})
+		}
+	}
 }
